@@ -1,7 +1,7 @@
 (* C08 -- deleting and renaming affect only what was named.  Statements only. *)
 From Coq Require Import ZArith NArith List Bool String.
 From DM Require Import Base.PyVal Spec.Nf Spec.Table Spec.Ops Proofs.TableFacts Proofs.TakeFacts Proofs.OpFacts.
-From DM Require Import Model.LTable Gen.KCore Model.Core Proofs.CoreRefine.
+From DM Require Import Model.LTable Gen.KCore Model.Core Proofs.CoreRefine Proofs.WriteRefine.
 Import ListNotations.
 
 (* del dm[i, j, ...]: exactly the other rows remain, in their order, with all cells *)
@@ -55,6 +55,38 @@ Theorem C08_l1_rename_refines : forall (w : world) p ti old new ident,
   end.
 Proof. exact rename_refines. Qed.
 Print Assumptions C08_l1_rename_refines.
+
+(* del dm[name], dm.sorted = b and dm[name] = <column type> as the L1 steps: exactly the L0 operations *)
+Theorem C08_l1_delcol_refines : forall (w : world) p ti name,
+  pool w = map abs p ->
+  match lstep p (ODelCol ti name) with
+  | LUpd i t' => step w (ODelCol ti name) = (put w i (abs t'), OkUnit)
+  | LErr => step w (ODelCol ti name) = (w, Err ValueError)
+  | LSkip => True
+  | _ => False
+  end.
+Proof. exact delcol_refines. Qed.
+Print Assumptions C08_l1_delcol_refines.
+
+Theorem C08_l1_setsorted_refines : forall (w : world) p ti b,
+  pool w = map abs p ->
+  match lstep p (OSetSorted ti b) with
+  | LUpd i t' => step w (OSetSorted ti b) = (put w i (abs t'), OkUnit)
+  | LSkip => True
+  | _ => False
+  end.
+Proof. exact setsorted_refines. Qed.
+Print Assumptions C08_l1_setsorted_refines.
+
+Theorem C08_l1_new_column_refines : forall (w : world) p ti name k,
+  pool w = map abs p ->
+  match lstep p (OSetColKind ti name k) with
+  | LUpd i t' => step w (OSetColKind ti name k) = (put w i (abs t'), OkUnit)
+  | LSkip => True
+  | _ => False
+  end.
+Proof. exact setcolkind_refines. Qed.
+Print Assumptions C08_l1_new_column_refines.
 
 Theorem C08_keeps_invariant : forall w o, wwf w -> wwf (fst (step w o)).
 Proof. exact step_wf. Qed.
